@@ -595,7 +595,7 @@ func runJobs(l *Loaded, fn *ssa.Function, g *JobGroup, argLists [][]int64, tier 
 				}
 			}
 			// every job also has its own wall-clock limit so that one exploding job cannot starve the others
-			jobLimit := 150 * time.Second
+			jobLimit := 200 * time.Second
 			if tier == "thorough" {
 				jobLimit = 45 * time.Minute
 			}
